@@ -5,5 +5,5 @@ CONSTANTS
   MaxDepth = 4
 INIT Init
 NEXT Next
-INVARIANTS WorldsOk SharedIsHandle PrefixRule Confinement GuardSound ModelConforms Positive RedirectIndex
+INVARIANTS WorldsOk SharedIsHandle PrefixRule Confinement GuardSound ModelConforms ModelJudged Positive RedirectIndex
 CHECK_DEADLOCK FALSE
